@@ -58,6 +58,14 @@ fn programs() -> Vec<Prog> {
             def_line: None,
             replies: vec!["5", "6"],
         },
+        // a one-line program: deleting its line leaves no program at all
+        Prog {
+            name: "R5",
+            lines: vec!["10 X=3: S$=\"s\": A(1)=9: FOR I=1 TO 2: STOP: PRINT X;: NEXT I"],
+            data_line: None,
+            def_line: None,
+            replies: vec![],
+        },
     ]
 }
 
